@@ -334,3 +334,72 @@ pub fn k7(a: &[String]) -> String {
     }
     "0".into()
 }
+
+pub fn k8(a: &[String]) -> String {
+    let (sh, p) = parse_shape(a);
+    let l = u(&a[p]) as usize;
+    let ms = u(&a[p + 1]);
+    let l2 = u(&a[p + 2]) as usize;
+    let n = sh.len();
+    let head_bytes = if n == 0 { 0 } else { sh.iter().fold(0u64, |acc, (l, nf)| if *nf { *l as u64 } else { acc + *l as u64 }) };
+    let rollover = head_bytes + l as u64 > ms;
+    let pre_data = if rollover { 0 } else { head_bytes as usize };
+    let post_data = pre_data + l;
+    let pre_idx = (n + 1) * 12;
+    for cd in pre_data..=post_data {
+        for ci in pre_idx..=(pre_idx + 12) {
+            let dir = tmpdir();
+            let mut g = make_state(&dir, &sh);
+            let mut ff = open!(dir, ms).unwrap();
+            let it = new_item(l);
+            ff.append(n as u64 + 1, &it).unwrap();
+            g.items.push(it);
+            drop(ff);
+            let head_file = if n == 0 { 0 } else { g.file[n - 1] };
+            let new_file = if rollover { head_file + 1 } else { head_file };
+            let fp = dir.join(format!("blk{new_file:06}"));
+            fs::OpenOptions::new().write(true).open(&fp).unwrap().set_len(cd as u64).unwrap();
+            fs::OpenOptions::new().write(true).open(dir.join("INDEX")).unwrap().set_len(ci as u64).unwrap();
+            let mut ok = true;
+            match open!(dir, ms) {
+                Some(mut f2) => {
+                    let num = f2.number();
+                    if num < 1 || (num - 1) as usize > n + 1 || ((num - 1) as usize) < n {
+                        ok = false;
+                    } else {
+                        let m = (num - 1) as usize;
+                        g.items.truncate(m);
+                        let it2: Vec<u8> = (0..l2).map(|k| 0xC0u8 + k as u8).collect();
+                        ok = f2.append(m as u64 + 1, &it2).is_ok();
+                        g.items.push(it2);
+                        for i in 1..=g.items.len() {
+                            match f2.retrieve(i as u64) {
+                                Ok(Some(v)) if v == g.items[i - 1] => {}
+                                _ => ok = false,
+                            }
+                        }
+                        // and once more after a clean re-open
+                        drop(f2);
+                        match open!(dir, ms) {
+                            Some(mut f3) => {
+                                for i in 1..=g.items.len() {
+                                    match f3.retrieve(i as u64) {
+                                        Ok(Some(v)) if v == g.items[i - 1] => {}
+                                        _ => ok = false,
+                                    }
+                                }
+                            }
+                            None => ok = false,
+                        }
+                    }
+                }
+                None => ok = false,
+            }
+            let _ = fs::remove_dir_all(&dir);
+            if !ok {
+                return format!("1 {cd} {ci}");
+            }
+        }
+    }
+    "0".into()
+}
